@@ -4,6 +4,18 @@ import json, os
 ids = [json.loads(l)['id'] for l in open('/verif/properties.jsonl')]
 TRUST = "CPython, hashlib, zlib, pyca/cryptography primitives, the RFC example vectors anchoring the reference implementation (mc/ref/selftest.py)"
 C = {
+ "C03": dict(level="exploration", ref="3 (C03)", technique="bounded exhaustive enumeration (choice-tree explorer E1) of the JWS configuration space on the real code, judged by an independent reference verifier",
+   text="All 15 algorithm/key kinds x key representations x key-as-key/set/callable x 5 serialization paths x header placements x payload classes are signed by joserfc; every token is then verified by joserfc (private and public-only key) and by an independent RFC 7515/7797 verifier that only gets the exported public JWK, and detached/restored. The configuration space is enumerated completely (about 10^5 executions quick), which is what finds a defect confined to one (algorithm, path, placement, payload class) cell; payload octets beyond the classes and keys beyond the constructed families are not covered.",
+   note="Trusts " + TRUST + ". ECDSA nonces come from OpenSSL and are not controlled: leading-zero R/S coverage is reported, not guaranteed."),
+ "C07": dict(level="exploration", ref="5 (C07/C08)", technique="bounded exhaustive enumeration (E1) of header spellings x algorithms x paths in both directions between joserfc and an independent RFC implementation",
+   text="Tokens signed by the independent reference in every spelling of the protected-header JSON (whitespace, order, escapes, duplicate member), for all 15 algorithm/key kinds, 5 paths, payload classes and both low-S and high-S ECDSA forms are consumed by joserfc; joserfc's tokens are consumed by the reference given only the exported public JWK; the published RFC example tokens are replayed. A producer/consumer mistake made symmetrically inside joserfc disagrees with the reference in at least one direction.",
+   note="Trusts " + TRUST + "."),
+ "C10": dict(level="exploration", ref="5 (C10)", technique="bounded exhaustive enumeration (E1) of claims x request options x now/leeway against a 40-line reference predicate transcribed from the statement",
+   text="Every single-claim set over 8 claim names x the JSON value alphabet and all time boundaries (now-+leeway-+{1,0.5,0}) x every combination of essential/value/values/allow_blank (requested values equal, different, blank, prefix, extension) x now x leeway x explicit/default now (time seam), then all ordered pairs (thorough: triples) over a reduced alphabet: about 8.5x10^5 evaluations quick. Accept <=> predicate, error class admissible, claims unmodified.",
+   note="exp == now-leeway is left open; requests that request nothing for aud are outside the alphabet; NaN/Infinity are not JSON."),
+ "C13": dict(level="model_checking", ref="5 (C13)", technique="bounded exhaustive enumeration (E1) of keys x representations against the reference RFC 7638 value, plus explicit-state BFS (E2) over kid/thumbprint/export histories on real Key objects",
+   text="E1: every EC scalar d=1..N per curve (deterministically including coordinates with leading zero octets), full-entropy EC keys, OKP patterns, RSA fixtures and oct lengths, in every origin (JWK/native/PEM/DER), private/public, with optional members, both member orders and three digests: thumbprint == reference RFC 7638 value. E2: breadth-first search to depth 3 over 13 operations (thumbprint, ensure_kid, exports, key-set wrap/export, signing with a set, mutating an exported dict, second key from the same parameters dict) from 6 fixture keys, states deduplicated by a canonical snapshot of the live Key; invariant: thumbprint constant, kid never changes once present, auto kid == thumbprint.",
+   note="Trusts " + TRUST + ". Histories longer than 3 operations and keys outside the constructed families are not covered."),
  "C19": dict(level="exploration", ref="5 (C19)", technique="bounded exhaustive enumeration (choice-tree explorer E1) of the codec input space against a table-driven reference codec",
    text="Every octet string up to length 2 (thorough: 3), every byte string up to that length as decoder input, every non-alphabet octet substituted/inserted at every position of canonical strings of every length class, every integer 1..2^12 (thorough 2^16) plus power-of-256 neighbourhoods up to 2^4096, and JSON header objects (with a decode-mutate-decode history) are run through the real codec and compared with an independent table-driven codec. Exhaustive over those domains, so a strictness or losslessness regression in them cannot hide; longer inputs are covered by pattern only.",
    note="Trusts " + TRUST + ". Trailing-bit tolerance of CPython's decoder is counted, not judged."),
